@@ -21,10 +21,10 @@ void stmt(Ctx& c, LZ lazy, EG eager) {
         VP_LIB(lazy(*DL, A, B, C, s));
         { scrub_stack(); eager(*DE, A, B, C, s); }
         launder(DL->data()); launder(DE->data());
-        long double mx = 1; for (size_t i = 0; i < N * N; ++i) mx = std::max(mx, fabsl((long double)DE->data()[i]));
+        long double mx = 1; for (size_t i = 0; i < N * N; ++i) if (std::isfinite((double)DE->data()[i])) mx = std::max(mx, fabsl((long double)DE->data()[i]));
         for (size_t i = 0; i < N * N; ++i) {
             if (EXACT) c.eqn(DL->data()[i], DE->data()[i], "D(lazy) vs D(eager)", (long)i, "lazy-differs-from-eager");
-            else { if (!(DE->data()[i] == DE->data()[i])) { ++c.notes["eager-result-not-finite"]; continue; } c.near(DL->data()[i], (long double)DE->data()[i], 512.0L * N * unit_roundoff<T>() * mx, "D(lazy) vs D(eager)", (long)i, "lazy-differs-from-eager"); }
+            else { if (!std::isfinite((double)DE->data()[i])) { ++c.notes["eager-result-not-finite"]; continue; } c.near(DL->data()[i], (long double)DE->data()[i], 512.0L * N * unit_roundoff<T>() * mx, "D(lazy) vs D(eager)", (long)i, "lazy-differs-from-eager"); }
         }
         if (EXACT) for (size_t i = 0; i < N * N; ++i) { T v = DL->data()[i] + T(0); c.digest_add(&v, 1); }
         DL.verify(c, "D(lazy)"); DE.verify(c, "D(eager)");
